@@ -133,6 +133,7 @@ inductive Ans
   | ok
   | val (v : Nat)
   | absent          -- `util.ErrValueNotPresent`
+  | rejected        -- the trie refused the insert (encoded value above `util.MPTMaxAllowableNodeSize`)
   | bad             -- the harness refuses the operation (no such block / nothing open …)
 deriving DecidableEq, Repr
 
@@ -161,6 +162,12 @@ inductive Op
   | probe (k : Nat)         -- `sctx.Cache().Get(key)` alone
   | ins (k v : Nat)         -- InsertTrieNode
   | del (k : Nat)           -- DeleteTrieNode
+  | insfail (k : Nat)       -- InsertTrieNode of a value the trie refuses: `setNodeValue` fails first, the cache is
+                            -- not touched (the caller may tolerate the error and go on)
+  | getn (k : Nat)          -- GetTrieNode into an object that is not `Copyable`: the cache is consulted, a hit cannot
+                            -- be used, the trie is read, nothing is cached (state_context.go after e59baf9)
+  | getr (k : Nat)          -- GetTrieNode into an object whose `CopyFrom` refuses the cached value: the trie is read
+                            -- and what was decoded is cached
   | commit                  -- the transaction succeeded: MergeMPTChanges + TransactionCache.Commit
   | discard                 -- the transaction failed: both dropped
   | bcommit                 -- block state computed: BlockCache.Commit, the block becomes a parent candidate
@@ -218,6 +225,33 @@ def step (cfg : Cfg) (w : World) : Op → World × Ans
           ({ w with cur := some { e with txn := some { tc := t.tc.set k .deleted, trie := t.trie.del k } } }, .ok)
       | none => (w, .bad)
     | none => (w, .bad)
+  | .insfail _ =>
+    match w.cur with
+    | some e =>
+      match e.txn with
+      | some _ => (w, .rejected)
+      | none => (w, .bad)
+    | none => (w, .bad)
+  | .getn k =>
+    match w.cur with
+    | some e =>
+      match e.txn with
+      | some t =>
+        ({ w with sc := (tcGet cfg w.sc t.tc e.bc e.prev k).1 },
+         match t.trie.get k with
+         | some v => .val v
+         | none => .absent)
+      | none => (w, .bad)
+    | none => (w, .bad)
+  | .getr k =>
+    match w.cur with
+    | some e =>
+      match e.txn with
+      | some t =>
+        let (sc, tc, a) := getTrieNode cfg ((tcGet cfg w.sc t.tc e.bc e.prev k).1, .miss) t.tc t.trie k
+        ({ w with sc := sc, cur := some { e with txn := some { t with tc := tc } } }, a)
+      | none => (w, .bad)
+    | none => (w, .bad)
   | .commit =>
     match w.cur with
     | some e =>
@@ -258,7 +292,7 @@ def step (cfg : Cfg) (w : World) : Op → World × Ans
 
 /-- the uncached reference: the trie the operation reads from (`none` when nothing is readable) -/
 def refRead (w : World) : Op → Option (Option Nat)
-  | .get k | .probe k =>
+  | .get k | .probe k | .getn k | .getr k =>
     match w.cur with
     | some e => match e.txn with
       | some t => some (t.trie.get k)
